@@ -59,11 +59,15 @@ def persistStep (st : PersistDrv) (args : List String) : PersistDrv × String :=
     match (findStr "acked" rest).bind (·.toNat?), findStr "ops" rest, findStr "got" rest with
     | some a, some ops, some got =>
       let l := if ops = "" then [] else ops.splitOn ";"
-      let sa := runEncoded st.disk.store (l.take a)
-      let sb := runEncoded st.disk.store (l.take (a + 1))
-      if dumpStore sa = got then ({ st with disk := { st.disk with store := sa } }, "ok crash-consistent")
-      else if dumpStore sb = got then ({ st with disk := { st.disk with store := sb } }, "ok crash-consistent")
-      else (st, "inconsistent expected=" ++ dumpStore sa ++ "|" ++ dumpStore sb)
+      -- the child keeps applying operations until SIGKILL lands, so it may have completed more than the parent had
+      -- read acknowledgements for: the recovered state must be the state after some prefix that contains every
+      -- acknowledged operation (each operation is one transaction: no torn prefix)
+      let cands := (List.range (l.length + 1 - a)).map (fun i => runEncoded st.disk.store (l.take (a + i)))
+      match cands.find? (fun s => dumpStore s = got) with
+      | some s => ({ st with disk := { st.disk with store := s } }, "ok crash-consistent")
+      | none =>
+        let sa := runEncoded st.disk.store (l.take a)
+        (st, "inconsistent acked=" ++ toString a ++ " state-after-acked=" ++ dumpStore sa)
     | _, _, _ => (st, "bad-op")
   | "readers" :: _ => (st, "ok violations=0")
   | _ => (st, "bad-op")
